@@ -16,10 +16,11 @@ META = {
             "origin's body, complete, for every store-delivery partition (C01_relay_exact_*), and a premature origin "
             "EOF yields an incomplete client message whenever the client framing is Content-Length or chunked "
             "(C01_truncation_visible_partial_content_length, C01_truncation_visible_partial_chunked_http11; malformed "
-            "origin chunking never reads as complete either). REFUTED at full strength with witnesses confirmed on the running proxy: "
-            "(1) a truncated chunked origin body relayed to an HTTP/1.0 client is close-delimited and reads as complete "
-            "(C01_truncation_http10_refuted); (2) bytes that arrive together with the head of a 204/304 reply are "
-            "written to the client after the bodiless reply (C01_bodiless_extra_bytes_refuted). The framing decision "
+            "origin chunking never reads as complete either). REFUTED at full strength with a witness confirmed on the running proxy: "
+            "a truncated chunked origin body relayed to an HTTP/1.0 client is close-delimited and reads as complete "
+            "(C01_truncation_http10_refuted) — the only known finding. Bodiless replies (204/304/1xx-class, HEAD): nothing "
+            "follows the head whatever the origin sends and however it is segmented (C01_bodiless_reply_clean, after the "
+            "repair 'do not relay bytes that arrive with the head of a bodiless response'). The framing decision "
             "functions HttpReply::expectingBody/bodySize are tied to the code by a table regenerated on every run "
             "(all statuses 0..999 x GET/HEAD x Content-Length x chunked).",
     "note": "partial: the theorems are about the transcribed data-path model (RelayModel.v) in which the chunked "
@@ -59,6 +60,9 @@ def gen_one(rng, k):
         # bodiless status, sometimes with bytes that arrive together with the head (single write)
         s.update(status=rng.choice([204, 304]), framing="none", n=0, extra=rng.choice([0, 0, 1, 7, 200]))
         s["close"] = s["extra"] > 0
+        if rng.random() < 0.5:     # the extra bytes may also arrive in later writes
+            s["splits"] = [rng.choice([1, 17, 30, 60, 100]) for _ in range(rng.randrange(1, 4))]
+            s["split_delay"] = rng.choice([0.002, 0.02])
         return s
     if x < 0.09:
         s.update(method="HEAD", framing="cl", n=rng.randrange(0, 5000))
